@@ -17,8 +17,11 @@ CACHE = os.path.join(VERIF, ".cache")
 CRATE_ENV = {"jsstr": {"RUSTFLAGS": "--cap-lints warn"}}
 
 
+LAST_UNWINDSET = {}
+
+
 class KaniRun:
-    def __init__(self, crate, harnesses, jobs, timeout_s, extra_args=(), env=None):
+    def __init__(self, crate, harnesses, jobs, timeout_s, extra_args=(), env=None, unwindset=None):
         self.crate = crate
         self.harnesses = list(harnesses)
         self.timeout_s = timeout_s
@@ -34,9 +37,24 @@ class KaniRun:
         cmd += ["--exact"]
         for h in self.harnesses:
             cmd += ["--harness", "proofs::" + h]
+        self.unwindset = None
+        env_all = dict(os.environ, CARGO_NET_OFFLINE="true", **(env or CRATE_ENV.get(crate, {})))
+        if unwindset:
+            # per-loop bounds for loops of the code under test (CBMC loop ids are mangled names: looked up in the
+            # freshly generated goto binary); Kani keeps --unwinding-assertions on, a bound that is too small fails
+            loops = find_loops(crate_dir, self.target, self.harnesses[0], env_all)
+            pairs = []
+            for frag, n in unwindset.items():
+                hit = [l for l in loops if frag in l]
+                if not hit:
+                    raise RuntimeError("no loop matching %r in the goto binary of %s" % (frag, crate))
+                pairs += ["%s:%d" % (l, n) for l in hit]
+            self.unwindset = ",".join(pairs)
+            LAST_UNWINDSET[crate] = self.unwindset
+            cmd += ["-Z", "unstable-options", "--cbmc-args", "--unwindset", "'%s'" % self.unwindset]
         self.cmd = cmd
         self.log = tempfile.NamedTemporaryFile("w+", suffix=".kani.log", delete=False, dir=CACHE)
-        env = dict(os.environ, CARGO_NET_OFFLINE="true", **(env or CRATE_ENV.get(crate, {})))
+        env = env_all
         # memory cap per process tree: 40 GB virtual
         self.p = subprocess.Popen("ulimit -v 41943040; exec " + " ".join(cmd), shell=True, cwd=crate_dir, env=env,
                                   stdout=self.log, stderr=subprocess.STDOUT)
@@ -83,6 +101,11 @@ class KaniRun:
                 for h in list(res):
                     if res[h] == "failed":
                         res[h] = "unknown"
+        if "unwinding assertion" in text:
+            # an unwinding bound was too small for some harness: that is a property of the harness, not of the code
+            for h in list(res):
+                if res[h] == "failed" and not h.startswith("witness"):
+                    res[h] = "unknown"
         times = [float(x) for x in re.findall(r"Verification Time: ([0-9.]+)s", text)]
         errors = re.findall(r"^(error.*|.*CBMC failed.*|.*Status: ERROR.*|.*out of memory.*)$", text, re.M)[:5]
         summary = {"crate": self.crate, "wall_s": round(wall, 1), "solver_s": round(sum(times), 1), "timed_out": timed_out,
@@ -93,6 +116,25 @@ class KaniRun:
         except OSError:
             pass
         return res, summary
+
+
+def find_loops(crate_dir, target, harness, env):
+    """Loop ids (`<mangled fn>.<n>`) of the goto binary Kani generates for `harness`."""
+    t0 = time.time()
+    p = subprocess.run(["cargo", "kani", "--target-dir", target, "--only-codegen"], cwd=crate_dir, env=env, capture_output=True, text=True, timeout=3000)
+    if p.returncode != 0:
+        raise RuntimeError("cargo kani --only-codegen failed: %s" % p.stderr[-2000:])
+    cands = []
+    for root, _, files in os.walk(os.path.join(target, "kani")):
+        for f in files:
+            if f.endswith(harness + ".out") and not f.endswith(".symtab.out"):
+                cands.append(os.path.join(root, f))
+    cands = [c for c in cands if os.path.getmtime(c) >= t0 - 5] or cands
+    if not cands:
+        raise RuntimeError("no goto binary for %s" % harness)
+    best = max(cands, key=os.path.getmtime)
+    q = subprocess.run(["goto-instrument", "--show-loops", best], capture_output=True, text=True, timeout=600)
+    return re.findall(r"^Loop (\S+):$", q.stdout, re.M)
 
 
 def playback(crate, harness, workdir):
@@ -106,7 +148,8 @@ def playback(crate, harness, workdir):
     env = dict(os.environ, CARGO_NET_OFFLINE="true", **CRATE_ENV.get(crate, {}))
     tgt = os.path.join(CACHE, "kani-target-" + crate)
     try:
-        p = subprocess.run("ulimit -v 25165824; exec cargo kani --target-dir %s --exact --harness proofs::%s -Z concrete-playback --concrete-playback=inplace --output-format terse" % (tgt, harness),
+        p = subprocess.run("ulimit -v 25165824; exec cargo kani --target-dir %s --exact --harness proofs::%s -Z concrete-playback --concrete-playback=inplace --output-format terse%s" % (
+                               tgt, harness, (" -Z unstable-options --cbmc-args --unwindset '%s'" % LAST_UNWINDSET[crate]) if crate in LAST_UNWINDSET else ""),
                            shell=True, cwd=dst, env=env, capture_output=True, text=True, timeout=900)
     except subprocess.TimeoutExpired:
         subprocess.run("pkill -x cbmc", shell=True)
